@@ -1185,8 +1185,11 @@ func abs(x float64) float64 {
 	return x
 }
 
+// roundup rounds half up to one decimal. The small epsilon (as in the FIRST
+// reference calculator) absorbs binary floating point noise so that values
+// that are exactly x.x5 in decimal are rounded up.
 func roundup(x float64) float64 {
-	return math.Round(x*10) / 10
+	return math.Round((x+0.000001)*10) / 10
 }
 
 // Nomenclature returns the CVSS v4.0 configuration used when scoring.
